@@ -764,3 +764,146 @@ def trace_oracle(items, feats=None):
                 V("mutex-state", "mutex %d lock flag %s after %s" % (i, l, req), k)
         prevP, prevF, prevC = P, F, C
     return viol
+
+
+# --------------------------------------------------------------------------- round 3: programs of coq/C11/Prog.v
+def _us(t):
+    return None if t is None else int(round(t * 1000000))
+
+
+def _sv_fmt(op):
+    k = op[0]
+    t = lambda u: "#f" if u is None else ("%.6f" % (u / 1000000.0))
+    if k == "c":
+        return "(c %d %s%s)" % (op[1], t(op[2]), "".join(" " + _sv_fmt(o) for o in op[3]))
+    if k == "w":
+        return "(w %d %d %s)" % (op[1], op[2], t(op[3]))
+    if k == "j":
+        return "(j %d %s)" % (op[1], t(op[2]))
+    if k == "z":
+        return "(z %s)" % t(op[1])
+    if k == "y":
+        return "(y)"
+    if k == "wr":
+        return "(wr %d %d)" % (op[1], op[2])
+    return "(%s %d)" % (k, op[1])
+
+
+def _sv_tok(op):
+    k = op[0]
+    t = lambda u: "n" if u is None else str(u)
+    if k == "c":
+        return "c %d %s [ %s ]" % (op[1], t(op[2]), " ".join(_sv_tok(o) for o in op[3]))
+    if k == "w":
+        return "w %d %d %s" % (op[1], op[2], t(op[3]))
+    if k == "j":
+        return "j %d %s" % (op[1], t(op[2]))
+    if k == "z":
+        return "z %s" % t(op[1])
+    if k == "y":
+        return "y"
+    if k == "wr":
+        return "wr %d %d" % (op[1], op[2])
+    return "%s %d" % (k, op[1])
+
+
+def sv_finish(nm, nc, vmutex, specs, kind):
+    """both concrete syntaxes of one program: the Scheme expression for (prog-sv ..) of c11_progs.scm and the token list
+    for the `prog` request of ocaml/C11_driver.ml"""
+    expr = "(prog-sv %d %d %d '(%s))" % (nm, nc, len(vmutex), " ".join("(" + " ".join(_sv_fmt(o) for o in ops) + ")" for ops in specs))
+    toks = "%d %s %d %s" % (len(vmutex), " ".join(str(m) for m in vmutex), len(specs), " ".join("[ " + " ".join(_sv_tok(o) for o in ops) + " ]" for ops in specs))
+    return dict(expr=expr, tokens=re.sub(r"\s+", " ", toks).strip(), kind=kind, n=len(specs), nx=len(vmutex))
+
+
+def to_sv(rng, unlocked=False):
+    """a round-2 random program (no thread-terminate!) translated into the language of coq/C11/Prog.v, with read-modify-write
+    accesses to shared variables inserted into the untimed critical sections of the mutex assigned to each variable.
+    Dropped: timed re-locks of an own mutex, the unlock of the spare mutex; untimed condvar waits become timed (the language
+    has no rescue loop); the root's raw lock .. unlock becomes a section; the root ends with an untimed join of every thread.
+    unlocked=True additionally appends read-modify-write sequences OUTSIDE any section to two threads (leaves the class)."""
+    p = gen_program(rng, force_term=False)
+    nm, nc = p["nm"] - 1, p["nc"]
+    nx = rng.choice([1, 2, 2, 3])
+    vmutex = [rng.randrange(nm) for _ in range(nx)]
+
+    def rmw(x):
+        seq = [("rd", x)]
+        r = rng.random()
+        if r < 0.35:
+            seq.append(("y",))
+        elif r < 0.5:
+            seq.append(("a", rng.randrange(1, 50)))
+        elif r < 0.6:
+            seq.append(("z", rng.choice([0, 2, 5, 20])))
+        seq.append(("wr", x, rng.randrange(1, 1000)))
+        return seq
+
+    def conv(ops, timed_ctx):
+        out = []
+        for o in ops:
+            k = o[0]
+            if k == "c":
+                tmo = _us(o[2])
+                body = conv(o[3], timed_ctx or tmo is not None)
+                if tmo is None and not timed_ctx:
+                    units = [[b] for b in body]          # a read-modify-write is inserted as one unit, never split
+                    for x in range(nx):
+                        if vmutex[x] == o[1] and rng.random() < 0.7:
+                            for _ in range(rng.choice([1, 1, 2])):
+                                units.insert(rng.randrange(len(units) + 1), rmw(x))
+                    body = [b for u in units for b in u]
+                out.append(("c", o[1], tmo, body))
+            elif k == "w":
+                out.append(("w", o[1], o[2], _us(o[3]) if o[3] is not None else rng.choice([100, 200, 500])))
+            elif k in ("r", "k"):
+                continue
+            elif k == "u":
+                continue               # only the spare-mutex unlock reaches here (the root's raw pair is folded below)
+            elif k == "n":
+                if not timed_ctx:
+                    out.append(("a", o[1]))
+            elif k == "j":
+                out.append(("j", o[1], _us(o[2])))
+            elif k == "z":
+                out.append(("z", _us(o[1])))
+            else:
+                out.append(o)
+        return out
+
+    specs = []
+    for i, ops in enumerate(p["specs"]):
+        ops = list(ops)
+        if i == 0:
+            lk = [j for j, o in enumerate(ops) if o[0] == "lk"]
+            if lk:
+                a = lk[0]
+                h = ops[a][1]
+                b = [j for j, o in enumerate(ops) if j > a and o[0] == "u" and o[1] == h][0]
+                ops = ops[:a] + [("c", h, None, ops[a + 1:b])] + ops[b + 1:]
+        specs.append(conv(ops, False))
+    n = len(specs)
+    # every variable is updated by at least two threads
+    for x in range(nx):
+        for i in rng.sample(range(1, n), min(2, n - 1)):
+            specs[i].insert(rng.randrange(len(specs[i]) + 1), ("c", vmutex[x], None, rmw(x)))
+    if unlocked:
+        for i in rng.sample(range(1, n), min(2, n - 1)):
+            for _ in range(rng.choice([2, 4])):
+                specs[i][len(specs[i]):] = rmw(0)
+    specs[0] = specs[0] + [("j", t, None) for t in range(1, n)]
+    return sv_finish(nm, nc, vmutex, specs, "unlocked-mixed" if unlocked else "locked")
+
+
+def neg_program(rng):
+    """negative control: 2-4 threads increment one shared variable WITHOUT holding its mutex (no yield inside the
+    read-modify-write): the final value depends on where the slices end"""
+    nt = rng.choice([2, 3, 3, 4])
+    specs = [[("st", t) for t in range(1, nt + 1)] + [("j", t, None) for t in range(1, nt + 1)]]
+    for t in range(1, nt + 1):
+        ops = []
+        for _ in range(rng.choice([4, 6, 8])):
+            ops += [("rd", 0), ("wr", 0, rng.choice([1, 1, 7, 100]))]
+            if rng.random() < 0.3:
+                ops.append(("a", rng.randrange(1, 9)))
+        specs.append(ops)
+    return sv_finish(1, 1, [0], specs, "unlocked")
